@@ -86,6 +86,21 @@ def check_item(spec):
     if has_quantum(qf):
         res["cls"] = "hybrid"
         return res
+    # whatever the reference interpreter can read: an accepted program must not mention a symbol that
+    # is neither an argument bit nor defined earlier, and must define every return bit
+    try:
+        _env = boolq.seq_env(qf.expressions, [b for a in qf.args for b in a.bitvec])
+        _miss = [r for r in qf.returns.bitvec if r not in _env]
+        if _miss:
+            res["cls"] = "judged"
+            res["findings"] = [{"kind": "ret-undefined", "what": "return bits %s are never defined by the expressions" % _miss[:6], "cex": {}, "replayed": True}]
+            return res
+    except boolq.FreeSymbol as e:
+        res["cls"] = "judged"
+        res["findings"] = [{"kind": "free-symbol", "what": "expressions use symbol %s that is neither an argument bit nor defined earlier: %s" % (e, str(qf.expressions)[:120]), "cex": {}, "replayed": True}]
+        return res
+    except boolq.Unsupported:
+        pass
     try:
         ref = refsem.reference(spec["src"])
     except refsem.Unsupported as e:
